@@ -101,6 +101,10 @@ Theorem C10_parse_host_valid : forall h d name p,
 Proof. exact parse_host_valid. Qed.
 Print Assumptions C10_parse_host_valid.
 
+Theorem C10_parse_host_total : forall h d, exists r, parse_host h d = Ok r.
+Proof. exact parse_host_total. Qed.
+Print Assumptions C10_parse_host_total.
+
 (* ---- unquote_string *)
 Theorem C10_unquote_quoted : forall inner, unquote_string (34 :: inner ++ [34]) = qp_unescape inner.
 Proof. exact unquote_quoted. Qed.
@@ -162,5 +166,5 @@ Proof. vm_compute. split; reflexivity. Qed.
 Example C10_authorities :
   ref_authority [91; 58; 58; 49; 93; 58; 56; 48] = Some ([58; 58; 49], Some 80%Z) /\
   parse_host [91; 58; 58; 49; 93; 58; 56; 48] None = Ok ([58; 58; 49], Some 80%Z) /\
-  parse_host [97; 58; 120] None = Crash ValueError.
+  parse_host [97; 58; 120] (Some 8080%Z) = Ok ([97], Some 8080%Z).
 Proof. vm_compute. repeat split; reflexivity. Qed.
